@@ -27,4 +27,7 @@ ASSUME \A f \in Col, c \in Col, e \in {"none", "off"} : PrintT(ToJson([kind |-> 
 ASSUME \A lm \in {"none", "full", "merged", "nolog"}, acct \in {"none", "on", "off"}, foreign \in BOOLEAN, sel \in {"slurm", "sge"} :
           PrintT(ToJson([kind |-> "namespace", log_mode |-> lm, acct |-> acct, foreign |-> foreign, selected |-> sel]))
 ASSUME \A p \in {"none", "cfg"}, h \in {"none", "cfg"} : PrintT(ToJson([kind |-> "local", port |-> p, host |-> h]))
+(* a directory without a workflow: gwf offers to create a project there and asks for the back end *)
+ASSUME \A a \in {"y", "n", "eof"}, c \in {"default", "slurm", "sge", "lsf", "local"}, w \in {"root", "nested"} :
+          (a = "y" \/ c = "default") => PrintT(ToJson([kind |-> "init", answer |-> a, choice |-> c, where |-> w]))
 =============================================================================
